@@ -23,7 +23,11 @@ PARTIAL = ("coordinates are compared up to floating-point rounding (1e-9 relativ
 ASSUMPTIONS = [
     "math.sqrt in numRingsToHoldNumCells is modelled by the exact integer square root; agreement checked "
     "exhaustively for small n and at every ring boundary sampled",
-    "string formatting of labels ({:03d}) is exercised on the implementation only",
+    "labels: Grid.getLabel ({:03d} formatting incl. sign and widths > 3) and locatorLabelToIndices are modelled over the "
+    "alphabet {'-', digits, other}; the tie sends labels made of digits and '-' only (Python int() also accepts "
+    "whitespace, '+', '_' and non-ASCII digits, which no label produced by armi contains)",
+    "labels of cells with a negative index cannot be decoded (known finding label-roundtrip-negative-index); the model "
+    "reproduces it (theorem label_negative_first_undecodable), the round-trip theorem covers indices >= 0 of any size",
     "generic grids (Model/Grid.lean): geomType / symmetry strings are passed to the model already normalised "
     "(str(GeomType.fromAny(x)), str(SymmetryType.fromAny(x))); idempotence of that normalisation is exercised by the "
     "rebuild oracle, not modelled",
@@ -216,7 +220,9 @@ def run(ctx):
     ctx.rule = (f"exhaustive: every hex cell within {N} rings (ring/pos both ways, labels, neighbours), "
                 "coordinates for both orientations x 3 pitches, numRings for all n below the tier bound plus ring "
                 "boundaries; Cartesian cells |i|,|j| <= bound with and without offset; generated bounds grids and "
-                "nestings (seeded). distinct = distinct cells / grid cases; every one is non-trivial (a real API call "
+                "nestings (seeded); every (parent grid kind, child grid kind) pair of 10 grid kinds at depth 2, every radial > axial > "
+                "axial triple, seeded nestings of depth 2..4 with owners at non-zero indices; labels of index tuples incl. "
+                "values >= 100 / 1000 and negative ones, decoder on strings over digits and '-'. distinct = distinct cells / grid cases; every one is non-trivial (a real API call "
                 "compared with the model).")
 
 
